@@ -147,3 +147,24 @@ package policer
 //@ func (*Policer).processNodes
 //@   property C27
 //@   loop 1 iteration [known_holder_is_not_offered_as_a_candidate] cachedNodeStatus(0) == 0 ==> len(candidates) == old(len(candidates))
+
+// ---- C47 (container data is discarded only when the container is gone) / C26: the policer
+// deletes a local object outright (not as a redundant copy) only when the placement of the
+// object is known - the node lists and rules were obtained without an error - or the container
+// source answered "not found". A failed look-up of another kind (RPC error, no network map)
+// says nothing, and nothing is deleted on it.
+//@ ghost pred placementKnown() bool
+//@ ghost pred containerReportedGone() bool
+//@ callrule c47_placement_lookup in (*Policer).processObject
+//@   property C47 C26
+//@   callee *).GetNodesForObject
+//@   defines (res3 == nil) == placementKnown()
+//@ callrule c47_container_not_found in (*Policer).processObject
+//@   property C47 C26
+//@   callee container.IsErrNotFound
+//@   pureeffect
+//@   defines result == containerReportedGone()
+//@ callrule c47_outright_deletion_needs_a_known_placement_or_a_missing_container in (*Policer).processObject
+//@   property C47 C26
+//@   callee (*policer.Policer).deleteLocalObject
+//@   requires [placement_known_or_container_gone] placementKnown() || containerReportedGone()
